@@ -75,20 +75,24 @@ type satisfier interface {
 }
 
 // kind: 0 = plain multiple catch, 1 = parallel-multiple catch, 2 = throw
-func c14New(kind, n int) satisfier {
+func c14New(kind, n int) satisfier { return c14NewPair(kind, n)[0] }
+
+// c14NewPair: two satisfiers made from ONE element (two instances of one parsed document each have a satisfier for
+// the same catch or throw event)
+func c14NewPair(kind, n int) [2]satisfier {
 	msgs, sigs := c14Defs(n)
 	if kind == 2 {
 		te := schema.DefaultThrowEvent()
 		te.SetMessageEventDefinitions(msgs)
 		te.SetSignalEventDefinitions(sigs)
-		return logic.NewThrowEventSatisfier(&te, event.WrappingDefinitionInstanceBuilder)
+		return [2]satisfier{logic.NewThrowEventSatisfier(&te, event.WrappingDefinitionInstanceBuilder), logic.NewThrowEventSatisfier(&te, event.WrappingDefinitionInstanceBuilder)}
 	}
 	ce := schema.DefaultCatchEvent()
 	ce.SetMessageEventDefinitions(msgs)
 	ce.SetSignalEventDefinitions(sigs)
 	par := kind == 1
 	ce.SetParallelMultiple(&par)
-	return logic.NewCatchEventSatisfier(&ce, event.WrappingDefinitionInstanceBuilder)
+	return [2]satisfier{logic.NewCatchEventSatisfier(&ce, event.WrappingDefinitionInstanceBuilder), logic.NewCatchEventSatisfier(&ce, event.WrappingDefinitionInstanceBuilder)}
 }
 
 // run one history; observed log code: 0 = did not match, 1+2*chain+matched otherwise
@@ -159,7 +163,12 @@ func c14Step(s satisfier, n, e int) (code int, fired bool) {
 // two satisfiers of the same kind alive at once (two instances, or two catch events built from equal definitions),
 // their histories interleaved: each must answer as if it were alone
 func c14Interleaved(kind, n int, h1, h2 []int, rng *rand.Rand) (log1, log2 []int) {
+	// every other pair is made from one element, the others from two
 	s1, s2 := c14New(kind, n), c14New(kind, n)
+	if rng.Intn(2) == 0 {
+		pr := c14NewPair(kind, n)
+		s1, s2 = pr[0], pr[1]
+	}
 	i, j := 0, 0
 	for i < len(h1) || j < len(h2) {
 		if j >= len(h2) || (i < len(h1) && rng.Intn(2) == 0) {
